@@ -44,6 +44,7 @@ type caseSpec struct {
 	FaultOp  string  `json:"faulted_call,omitempty"` // store | fetch
 	K        int     `json:"k,omitempty"`
 	Fault    string  `json:"fault,omitempty"`
+	SlowMs   int     `json:"slow_client_ms_per_operation,omitempty"` // interleave: every backend operation of client c0 takes that long (its Store outlasts the cache timeout)
 	Clients  int     `json:"clients,omitempty"`
 	Policy   string  `json:"policy,omitempty"`
 	AdvanceP float64 `json:"advance_p,omitempty"`
@@ -318,6 +319,12 @@ func interleaveScenario(ctx context.Context, r *vrun.Run, res *result) {
 		_ = res.store(ctx, "p", p, v)
 	}
 	var wg sync.WaitGroup
+	if sc.SlowMs > 0 {
+		// slow only where the package is transferred: the client gets the lock at once and then stays inside for long
+		x.w.Slow["c0"] = time.Duration(sc.SlowMs) * time.Millisecond
+		x.w.SlowPath["c0"] = filepath.Join(x.remote, key) + string(filepath.Separator) + "cache.zip"
+		x.w.SlowOnce["c0"] = sc.SlowMs >= 1000 // one long stall on the first operation on the package, or every operation a bit slow
+	}
 	for c := 0; c < sc.Clients; c++ {
 		name := fmt.Sprintf("c%d", c)
 		wg.Add(1)
@@ -326,8 +333,24 @@ func interleaveScenario(ctx context.Context, r *vrun.Run, res *result) {
 			rng := r.Rand(sc.Stream+"-client-"+name, sc.Index)
 			cache := x.cache(name)
 			nops := 2 + rng.IntN(3)
+			if sc.SlowMs > 0 && ci > 0 {
+				// the others arrive while the slow client is inside its Store, and stay for a while
+				// (the cache timeout is 2 s: they come both before and after it has elapsed)
+				lockh.Sleep(ctx, time.Duration([]int{400, 2200, 2300, 2500, 2800}[(ci+sc.Index)%5]+rng.IntN(200))*time.Millisecond)
+				nops += 2
+			}
 			for i := 0; i < nops; i++ {
-				switch rng.IntN(7) {
+				pick := rng.IntN(7)
+				if sc.SlowMs > 0 && ci == 0 && i == 0 {
+					pick = 0 // the slow client starts with a Store
+				}
+				if sc.SlowMs > 0 && ci > 0 && i == 0 {
+					pick = 6 // the first thing another client does is clean the entry
+				}
+				if sc.SlowMs > 0 && ci > 0 && i == 1 {
+					pick = 0 // ... then it stores
+				}
+				switch pick {
 				case 0, 1, 2:
 					_ = res.store(ctx, name, cache, 100+ci*10+i)
 				case 3, 4, 5:
@@ -603,7 +626,11 @@ func main() {
 		if err := r.ReadReplay(&wit); err != nil {
 			r.Fatalf("replay: %v", err)
 		}
-		analyse(r, runCase(r, wit.Case))
+		rr := runCase(r, wit.Case)
+		for _, o := range rr.ops {
+			fmt.Printf("  replayed: %-8s %-10s v%-4d call=%-6d ret=%-6d %s\n", o.Actor, o.Op, o.V, o.Call, o.Ret, trunc(o.Err, 110))
+		}
+		analyse(r, rr)
 		r.Finish()
 	}
 
@@ -639,6 +666,13 @@ func main() {
 		rng := r.Rand("c16-gen", i)
 		cases = append(cases, caseSpec{Mode: "interleave", Kind: []string{"mutable", "immutable"}[i%2], Prev: rng.IntN(2), Clients: 2 + rng.IntN(3),
 			Policy: []string{"random", "pct", "random"}[rng.IntN(3)], AdvanceP: []float64{0.05, 0.2, 0.4}[rng.IntN(3)], Stream: "il"})
+		if i%10 == 7 {
+			c := &cases[len(cases)-1]
+			c.SlowMs = []int{150 + rng.IntN(250), 2400 + rng.IntN(900)}[rng.IntN(2)]
+			if c.Clients < 3 {
+				c.Clients = 3
+			}
+		}
 	}
 	for i := range cases {
 		cases[i].Index = i
